@@ -220,6 +220,9 @@ def build(spec, scratch=None, stop_at=None, tolerate_flagged=False):
                     attr.value = model.to_python(a['v'], resolve)
                 if a.get('u') is not None:
                     attr.units = _units_value(a['u'])
+            for k, a in (op.get('attrs') or {}).items():
+                if 'v_late' in a:       # a second value, assigned to the attribute after the object was created
+                    getattr(item, t['attrs'][k].py).value = model.to_python(a['v_late'], resolve)
             if op.get('bad'):
                 b.accepted_bad.append((i, j))
         except Exception as exc:
